@@ -213,6 +213,9 @@ def run(ctx: Ctx) -> None:
     ctx.notes["harness_resets_after_damage"] = resets
     if len(ops_seen) < len(ad.ALL_OPERATORS):
         raise MachineryError(f"only {len(ops_seen)} of {len(ad.ALL_OPERATORS)} operators produced a mutant")
+    referr = sorted({t["meta"]["reference_raised"] for t in keep if t["meta"]["reference_raised"]})
+    if referr:
+        ctx.drift.append(f"the reference (full) enumeration itself raised {referr}; the recorded prefix is used")
     if identical:
         ctx.drift.append(f"{identical} yielded mutant(s) do not differ from the original tree at all")
     if attr:
